@@ -475,7 +475,7 @@ def run(rep):
 
     # ---- outcome: one report per finding id / kind, preferring a case with a concrete failing input
     prio = {"incdec-scope": 0, "semantics": 0, "hang": 0}
-    findings.sort(key=lambda f: prio.get(f[1], 1))
+    findings.sort(key=lambda f: (prio.get(f[1], 1), len(f[2].get("go") or f[2].get("acts") or "")))
     reported = set()
     for kfid, kind, obj in findings:
         if kfid is not None and kfid in known:
